@@ -192,12 +192,24 @@ static struct {
 } g_cs;
 static int64_t g_t0;
 static int rel_us(void) { return (int)((abtv_now_ns() - g_t0) / 1000); }
+/* reading the clock lets (virtual) time pass */
+static int rel_us_tick(void)
+{
+    struct timespec ts;
+    clock_gettime(CLOCK_REALTIME, &ts);
+    return (int)(((int64_t)ts.tv_sec * 1000000000LL + ts.tv_nsec - g_t0) / 1000);
+}
 
 static void cond_waiter(caller_t *c)
 {
     int timed = c->x[0], dl_us = c->x[1];
     if (c->kind == K_ULT && c->x[2])
         ABT_thread_yield();
+    /* a late waiter joins the queue after the short deadlines have expired */
+    while (c->x[3] > 0 && rel_us_tick() < c->x[3]) {
+        abtv_poll_until(g_t0 + (int64_t)c->x[3] * 1000);
+        drv_pause(c);
+    }
     CHK(ABT_mutex_lock(g_m));
     EV("\"e\":\"Acq\",\"t\":%d", c->id);
     int r;
@@ -235,6 +247,12 @@ static void cond_waiter(caller_t *c)
 static void cond_signaller(caller_t *c)
 {
     int use_bcast = c->x[0];
+    /* holding the signals back lets timed waiters expire in the middle of the
+     * queue while untimed ones stay in it */
+    while (c->x[1] > 0 && rel_us_tick() < c->x[1]) {
+        abtv_poll_until(g_t0 + (int64_t)c->x[1] * 1000);
+        drv_pause(c);
+    }
     for (;;) {
         CHK(ABT_mutex_lock(g_m));
         __sync_add_and_fetch(&g_holders, 1);
@@ -244,11 +262,11 @@ static void cond_signaller(caller_t *c)
         if (!done && p > 0) {
             EV("\"e\":\"Acq\",\"t\":%d", c->id);
             if (use_bcast && rnd(2)) {
-                EV("\"e\":\"Bcast\",\"t\":%d", c->id);
+                EV("\"e\":\"Bcast\",\"t\":%d,\"at\":%d", c->id, rel_us());
                 CHK(ABT_cond_broadcast(g_cv));
                 expect = g_cs.success + p; /* at least the untimed ones present */
             } else {
-                EV("\"e\":\"Signal\",\"t\":%d", c->id);
+                EV("\"e\":\"Signal\",\"t\":%d,\"at\":%d", c->id, rel_us());
                 CHK(ABT_cond_signal(g_cv));
                 expect = g_cs.success + 1;
             }
@@ -269,7 +287,7 @@ static void cond_signaller(caller_t *c)
 static void scn_cond(int timed_mode)
 {
     /* timed_mode 0: untimed waiters only (C05); 1: mixed timed/untimed (C19) */
-    int nw = 1 + rnd(4);
+    int nw = 1 + rnd(timed_mode ? 6 : 4);
     memset(&g_cs, 0, sizeof g_cs);
     g_holders = 0;
     g_t0 = abtv_now_ns();
@@ -287,11 +305,13 @@ static void scn_cond(int timed_mode)
         int cls = rnd(4);
         c->x[1] = cls == 0 ? -5 : cls == 1 ? 3 + rnd(20) : cls == 2 ? 40 + rnd(200) : 100000000;
         c->x[2] = rnd(2);
+        c->x[3] = (timed_mode && rnd(3) == 0) ? 250 + rnd(150) : 0;
     }
     caller_t *s = &g_c[nw];
     s->body = cond_signaller;
     s->x[0] = rnd(2);
-    EV("\"e\":\"Cond\",\"nw\":%d,\"timed\":%d", nw, timed_mode);
+    s->x[1] = (timed_mode && rnd(2)) ? 300 + rnd(200) : 0;
+    EV("\"e\":\"Cond\",\"nw\":%d,\"timed\":%d,\"hold\":%d", nw, timed_mode, s->x[1]);
     callers_launch(32768);
     callers_join();
     EV("\"e\":\"CondEnd\",\"returned\":%d", g_cs.returned);
